@@ -245,6 +245,18 @@ class Check:
                     for m in re.finditer(r"^([A-Za-z_][\w.']*)\s*:", blk, flags=re.M):
                         if m.group(1) != "Axioms":
                             self.axioms.add(m.group(1))
+            if self.tier == "thorough" and not self.replay_path:
+                # independent re-check of the compiled property file and everything it depends on
+                mod = "GV." + rel[:-2].replace("/", ".")
+                rc2, out2, err2 = _sh(f"timeout 1500 coqchk -silent -o -Q . GV {mod}", cwd=COQ, timeout=1600)
+                txt = out2 + err2
+                self.coqchk = getattr(self, "coqchk", {})
+                if rc2 != 0:
+                    self.l1_broken.append((f"coqchk:{mod}", "coqchk rejected the compiled library: " + txt.strip()[-300:]))
+                else:
+                    m2 = re.search(r"\* Axioms:(.*?)\n\s*\n\* Constants/Inductives relying on type-in-type:(.*?)\n", txt, flags=re.S)
+                    self.coqchk[mod] = {"axioms": [a.strip() for a in (m2.group(1) if m2 else "").split("\n") if a.strip()],
+                                        "type_in_type": (m2.group(2).strip() if m2 else "?")}
             self.partial += [t for t in thms if t.endswith("_partial")]
             self.partial += re.findall(r"^\s*(?:Theorem|Corollary)\s+(\w+_refuted)", src_nc, flags=re.M)
         return not self.l1_broken
@@ -364,6 +376,8 @@ class Check:
             "model_calls": self._model.calls if self._model else 0,
             "known_findings": [k for k in seen_known], "notes": self.notes,
         }
+        if getattr(self, "coqchk", None):
+            cov["coqchk"] = self.coqchk
         cov.update(extra or {})
         ev = {"property_id": self.pid, "tier": self.tier, "seed": self.seed, "level": level,
               "coverage": cov, "wall_s": round(time.time() - self.t0, 2), "violations": nviol,
